@@ -483,15 +483,78 @@ class _Continue(Exception):
     pass
 
 
+class LinSys:
+    """affine constraints over GF(2) in reduced echelon form: pivot atom -> form over non-pivot atoms
+    (Karr-style affine relations along one path); `const` mirrors the pivots whose form is a constant"""
+
+    def __init__(self, rows=None):
+        self.rows: Dict[int, F] = dict(rows or {})
+        self.pmask = 0
+        for p in self.rows:
+            self.pmask |= 1 << p
+        self.const: Dict[int, int] = {p: r.c for p, r in self.rows.items() if r.m == 0}
+
+    def copy(self):
+        return LinSys(self.rows)
+
+    def reduce(self, f: "F") -> "F":
+        m = f.m & self.pmask
+        if not m:
+            return f
+        fm, fc = f.m, f.c
+        i = 0
+        while m:
+            if m & 1:
+                r = self.rows[i]
+                fm ^= (1 << i) ^ r.m
+                fc ^= r.c
+            m >>= 1
+            i += 1
+        return F(fm, fc)
+
+    def add(self, e: "F") -> str:
+        """add the equation e == 0; returns 'redundant' | 'contradiction' | 'added'"""
+        e = self.reduce(e)
+        if e.m == 0:
+            return "redundant" if e.c == 0 else "contradiction"
+        p = e.m.bit_length() - 1
+        row = F(e.m ^ (1 << p), e.c)
+        bit = 1 << p
+        for q, r in list(self.rows.items()):
+            if r.m & bit:
+                self.rows[q] = F(r.m ^ bit ^ row.m, r.c ^ row.c)
+        self.rows[p] = row
+        self.pmask |= bit
+        self.const = {q: r.c for q, r in self.rows.items() if r.m == 0}
+        return "added"
+
+    def implied(self, eqs) -> str:
+        """status of a conjunction of equations without committing: 'true' | 'false' | 'open'"""
+        t = self.copy()
+        st = "true"
+        for e in eqs:
+            r = t.add(e)
+            if r == "contradiction":
+                return "false"
+            if r == "added":
+                st = "open"
+        return st
+
+
 class PathState:
     def __init__(self, script):
         self.script = list(script)
         self.decisions: List[bool] = []
         self.labels: List[str] = []
-        self.subst: Dict[int, int] = {}
+        self.lin = LinSys()
         self.eqs: List[Tuple[tuple, int, bool]] = []  # (forms msb-first, const, equal?)
         self.conds: Dict[Any, bool] = {}
         self.assumed: List[str] = []
+
+    @property
+    def subst(self) -> Dict[int, int]:
+        """atoms fixed to a constant on this path"""
+        return self.lin.const
 
     def choose(self, label: str) -> bool:
         i = len(self.decisions)
@@ -547,9 +610,7 @@ class Interp:
     # ---- atoms / forms
     def atom_form(self, name) -> F:
         i = self.atoms.get(name)
-        if i in self.st.subst:
-            return cbit(self.st.subst[i])
-        return F(1 << i, 0)
+        return self.st.lin.reduce(F(1 << i, 0))
 
     def simp(self, b):
         if isinstance(b, AFin):
@@ -568,12 +629,7 @@ class Interp:
             return cbit(r) if r in (0, 1, True, False) else OB("non-boolean")
         if isinstance(b, OB) or b.m == 0:
             return b
-        m, c = b.m, b.c
-        for a, v in self.st.subst.items():
-            if (m >> a) & 1:
-                m ^= 1 << a
-                c ^= v
-        return F(m, c)
+        return self.st.lin.reduce(b)
 
     def simp_fin(self, v):
         """restrict a general (non-boolean) AFin to the current substitution"""
@@ -609,24 +665,26 @@ class Interp:
         cb = [(const >> (w - 1 - i)) & 1 for i in range(w)]
         if any(isinstance(f, OB) for f in forms):
             raise Abort(f"comparison of opaque bits ({label})")
-        if all(f.is_const for f in forms):
-            return all(f.c == b for f, b in zip(forms, cb))
-        if any(f.is_const and f.c != b for f, b in zip(forms, cb)):
+        fin = [f for f in forms if isinstance(f, AFin)]
+        if fin:
+            acc = set()
+            for f in fin:
+                acc.update(f.atoms)
+            raise NeedCases(sorted(acc))
+        eqs = [f ^ b for f, b in zip(forms, cb)]
+        status = self.st.lin.implied(eqs)
+        if status == "true":
+            return True
+        if status == "false":
             return False
         key = tuple(forms)
         for k, c, eq in self.st.eqs:
-            if k == key:
-                if eq:
-                    return c == const
-                if c == const:
-                    return False
+            if not eq and c == const and tuple(self.simp_bits(list(k))) == key:
+                return False
         v = self.st.choose(f"{label}=={const}")
         if v:
-            for f, b in zip(forms, cb):
-                if not f.is_const:
-                    at = f.atoms()
-                    if len(at) == 1:
-                        self.st.subst[at[0]] = b ^ f.c
+            for e in eqs:
+                self.st.lin.add(e)
             self.st.eqs.append((key, const, True))
         else:
             self.st.eqs.append((key, const, False))
@@ -875,15 +933,16 @@ class Frame:
             assign = {a: (idx >> i) & 1 for i, a in enumerate(atoms)}
             memo = {}
             env_i = {k: (snapshot(v, memo) if k in touched else v) for k, v in base_env.items()}
-            saved = dict(I.st.subst)
-            I.st.subst.update(assign)
+            saved = I.st.lin.copy()
+            for a_, v_ in assign.items():
+                I.st.lin.add(F(1 << a_, v_))
             self.env = env_i
             I.case_depth += 1
             try:
                 m(st)
             except NeedCases as nc2:
                 I.case_depth -= 1
-                I.st.subst = saved
+                I.st.lin = saved
                 self.env = base_env
                 more = [a for a in nc2.atoms if a not in atoms]
                 if not more:
@@ -894,7 +953,7 @@ class Frame:
             except PathRaise as e:
                 raise PartialRaise(e.exc, f"{self.fi.module.relpath}:{st.lineno}")
             finally:
-                I.st.subst = saved
+                I.st.lin = saved
                 self.env = base_env
             I.case_depth -= 1
             results.append(env_i)
